@@ -48,6 +48,7 @@ require (
 	github.com/xunleichain/tc-wasm v0.3.5 // indirect
 	golang.org/x/crypto v0.0.0-20190701094942-4def268fd1a4 // indirect
 	golang.org/x/net v0.0.0-20190628185345-da137c7871d7 // indirect
+	golang.org/x/sync v0.0.0-20190423024810-112230192c58 // indirect
 	golang.org/x/sys v0.0.0-20190712062909-fae7ac547cb7 // indirect
 	golang.org/x/text v0.3.0 // indirect
 	gopkg.in/fatih/set.v0 v0.1.0 // indirect
